@@ -17,7 +17,7 @@ variable {α : Type}
 theorem heap_inv_push {lt : α → α → Bool} (h : StrictWeak lt) (xs : List α) (x : α) (hp : Heap lt xs) :
     Heap lt (hpush lt xs x) := by
   unfold hpush up
-  apply upF_heap h _ _ _ (Nat.le_refl _)
+  apply upF_heap h _ _ _ (Nat.le_refl _) (by simp)
   constructor
   · intro k a p hk hkn hka hkp
     have hkl := lt_len_of_get hka
@@ -132,6 +132,15 @@ theorem hpop_length (lt : α → α → Bool) (xs : List α) (e : α) (rest : Li
     simp only [List.length_dropLast, List.length_cons]
     unfold down; rw [downF_length, swap_length]; simp
 
+/-- `heap.Fix` re-establishes the invariant after any change of one cell (the count bump of CacheLFU.Update, the new
+    stamp of CacheLRU.Update) -/
+theorem heap_inv_fix {lt : α → α → Bool} (h : StrictWeak lt) (xs : List α) (i : Nat) (v : α) (hil : i < xs.length)
+    (hp : Heap lt xs) : Heap lt (hfix lt (xs.set i v) i) := hfix_heap h xs i v hil hp
+
+/-- `heap.Remove` keeps the invariant on what remains, whichever cell is removed -/
+theorem heap_inv_remove {lt : α → α → Bool} (h : StrictWeak lt) (xs : List α) (i : Nat) (hil : i < xs.length)
+    (hp : Heap lt xs) : Heap lt (hremove lt xs i) := hremove_heap h xs i hil hp
+
 /-! ## the two orders -/
 
 /-- CacheLFU.Less is a strict weak order (count ascending, then the later `addedTime` first) -/
@@ -203,6 +212,145 @@ theorem lru_update_never_records (c : Cache LruE) (k : Bytes) (t1 t2 : Nat) (c' 
 /-- … and every access of a key therefore adds one more heap entry (witness: two accesses, two entries) -/
 theorem lru_duplicates_witness :
     ((lruUpdate {} (b "k") 1 1).bind fun c => lruUpdate c (b "k") 2 2).map (·.cells.length) = some 2 := by decide
+
+/-! ## the caches keep their heaps -/
+
+theorem modify_eq_set {β : Type} (f : β → β) : ∀ (es : List β) (i : Nat) (h : i < es.length), es.modify i f = es.set i (f es[i]) := by
+  intro es
+  induction es with
+  | nil => intro i h; simp at h
+  | cons e r ih =>
+    intro i h
+    cases i with
+    | zero => simp [List.modify]
+    | succ i => simp [List.modify_succ_cons, ih i (by simpa using h)]
+
+theorem unwrap_wrap {E : Type} (es : List E) : unwrapCells (wrap es) = some es := by
+  induction es with
+  | nil => rfl
+  | cons e r ih => simp only [wrap, List.map_cons, unwrapCells] at *; rw [ih]; rfl
+
+/-- no nil cell, and the entries form a heap w.r.t. the cache's `Less` -/
+def CacheOk {E : Type} (lt : E → E → Bool) (c : Cache E) : Prop := ∃ es, unwrapCells c.cells = some es ∧ Heap lt es
+
+theorem heap_singleton {E : Type} (lt : E → E → Bool) (e : E) : Heap lt [e] := by
+  intro k a p hk hka
+  cases k with
+  | zero => omega
+  | succ k => simp at hka
+
+/-- CacheLFU.Update (push of a new key, or count bump + Fix) keeps the LFU heap a heap -/
+theorem lfu_update_keeps_heap (c c' : Cache LfuE) (k : Bytes) (now : Nat) (hok : CacheOk lfuLess c)
+    (hu : lfuUpdate c k now = some c') : CacheOk lfuLess c' := by
+  obtain ⟨es, hes, hp⟩ := hok
+  unfold lfuUpdate at hu
+  rw [hes] at hu
+  split at hu
+  · split at hu
+    · injection hu with hu; rw [← hu]
+      exact ⟨[_], rfl, heap_singleton _ _⟩
+    · injection hu with hu; rw [← hu]
+      exact ⟨_, unwrap_wrap _, heap_inv_push lfuLess_strictWeak es _ hp⟩
+  · dsimp only at hu
+    split at hu
+    · contradiction
+    · next i hi =>
+      injection hu with hu; rw [← hu]
+      have hil : i < es.length := (List.findIdx?_eq_some_iff_findIdx_eq.mp hi).1
+      refine ⟨_, unwrap_wrap _, ?_⟩
+      rw [modify_eq_set _ es i hil]
+      exact heap_inv_fix lfuLess_strictWeak es i _ hil hp
+
+/-- CacheLFU.Delete keeps the LFU heap a heap -/
+theorem lfu_delete_keeps_heap (c c' : Cache LfuE) (k : Bytes) (hok : CacheOk lfuLess c)
+    (hd : lfuDelete c k = some c') : CacheOk lfuLess c' := by
+  obtain ⟨es, hes, hp⟩ := hok
+  unfold lfuDelete at hd
+  rw [hes] at hd
+  split at hd
+  · injection hd with hd; rw [← hd]; exact ⟨es, hes, hp⟩
+  · dsimp only at hd
+    split at hd
+    · injection hd with hd; rw [← hd]; exact ⟨es, hes, hp⟩
+    · next i hi =>
+      injection hd with hd; rw [← hd]
+      have hil : i < es.length := (List.findIdx?_eq_some_iff_findIdx_eq.mp hi).1
+      exact ⟨_, unwrap_wrap _, heap_inv_remove lfuLess_strictWeak es i hil hp⟩
+
+/-- the eviction pop keeps the LFU heap a heap, and the key it yields has the minimal recorded count -/
+theorem lfu_pop_keeps_heap_and_is_least_frequent (c c' : Cache LfuE) (k : Bytes) (hok : CacheOk lfuLess c)
+    (hpop' : lfuPop c = some (k, c')) :
+    CacheOk lfuLess c' ∧ ∃ es e, unwrapCells c.cells = some es ∧ e ∈ es ∧ e.key = k ∧ ∀ a ∈ es, e.count ≤ a.count := by
+  obtain ⟨es, hes, hp⟩ := hok
+  unfold lfuPop at hpop'
+  rw [hes] at hpop'
+  dsimp only at hpop'
+  split at hpop'
+  · contradiction
+  · next e r hpr =>
+    injection hpop' with hpop'
+    injection hpop' with hk hc
+    rw [← hc]
+    refine ⟨⟨_, unwrap_wrap _, heap_inv_pop lfuLess_strictWeak es hp e r hpr⟩, es, e, hes, ?_, hk, lfu_order es hp e r hpr⟩
+    cases es with
+    | nil => simp [hpop] at hpr
+    | cons x0 r0 =>
+      have := pop_returns_root lfuLess x0 r0 e r hpr
+      rw [this]; simp
+
+/-- CacheLRU.Update keeps the LRU heap a heap (w.r.t. its own, inverted, order) -/
+theorem lru_update_keeps_heap (c c' : Cache LruE) (k : Bytes) (t1 t2 : Nat) (hok : CacheOk lruLess c)
+    (hu : lruUpdate c k t1 t2 = some c') : CacheOk lruLess c' := by
+  obtain ⟨es, hes, hp⟩ := hok
+  unfold lruUpdate at hu
+  rw [hes] at hu
+  dsimp only at hu
+  have key : ∀ (pushed : Option (List LruE)), (∀ es1, pushed = some es1 → Heap lruLess es1) →
+      (match pushed with
+        | none => none
+        | some es1 =>
+          match idxLru es1 k with
+          | none => none
+          | some i => some (⟨c.keys, wrap (hfix lruLess (es1.modify i fun e => { e with time := t2 }) i)⟩ : Cache LruE)) = some c' →
+      CacheOk lruLess c' := by
+    intro pushed hpush h1
+    split at h1
+    · contradiction
+    · next es1 =>
+      have hp1 := hpush es1 rfl
+      split at h1
+      · contradiction
+      · next i hi =>
+        injection h1 with h1; rw [← h1]
+        have hil : i < es1.length := (List.findIdx?_eq_some_iff_findIdx_eq.mp hi).1
+        refine ⟨_, unwrap_wrap _, ?_⟩
+        rw [modify_eq_set _ es1 i hil]
+        exact heap_inv_fix lruLess_strictWeak es1 i _ hil hp1
+  refine key _ ?_ hu
+  intro es1 h
+  split at h
+  · split at h
+    · injection h with h; rw [← h]; exact heap_singleton _ _
+    · simp only [Option.map_some] at h
+      injection h with h; rw [← h]
+      exact heap_inv_push lruLess_strictWeak es _ hp
+  · injection h with h; rw [← h]; exact hp
+
+/-- the LRU eviction pop yields the key with the latest recorded access -/
+theorem lru_pop_is_most_recent (c c' : Cache LruE) (k : Bytes) (hok : CacheOk lruLess c)
+    (hpop' : lruPop c = some (k, c')) :
+    CacheOk lruLess c' ∧ ∃ (es : List LruE) (e : LruE), unwrapCells c.cells = some es ∧ e.key = k ∧ ∀ a ∈ es, a.time ≤ e.time := by
+  obtain ⟨es, hes, hp⟩ := hok
+  unfold lruPop at hpop'
+  rw [hes] at hpop'
+  dsimp only at hpop'
+  split at hpop'
+  · contradiction
+  · next e r hpr =>
+    injection hpop' with hpop'
+    injection hpop' with hk hc
+    rw [← hc]
+    exact ⟨⟨_, unwrap_wrap _, heap_inv_pop lruLess_strictWeak es hp e r hpr⟩, es, e, hes, hk, lru_pops_most_recent es hp e r hpr⟩
 
 /-! ## admission test and eviction loop -/
 
